@@ -179,3 +179,83 @@ Example C17_tree_point :
      = Done ([5; 5; 5; 5; 5; 5; 5; 5; 5; 5; 5; 5; 5; 5; 4; 3; 3; 2], pool', 8)) /\
   clamped_total counts (2 ^ 8) < 2 ^ 32 - 1 /\ (2 <= nonzero_count counts)%nat.
 Proof. vm_compute. split; [eexists; reflexivity|split; [reflexivity|repeat constructor]]. Qed.
+
+From V Require Import proofs.Tree_termination.
+
+(* ---- the builder: termination of the `count_limit *= 2` retry loop -----------------------------
+   C17_tree closes the gap left by C17_tree_partial.  For every histogram with at least two used
+   symbols over an alphabet whose node indices fit i16 (2 * length + 1 <= 32768: every alphabet of
+   at most 16383 symbols; the encoder's largest is 704), every limit 0..15 that can hold the
+   alphabet (length <= 2^limit: 15 and 14 for the encoder's alphabets, 5 for the 18 code length
+   symbols), a scratch array of at least 2 * length + 1 nodes with arbitrary contents, and counts
+   whose clamped sum cannot wrap u32 in any iteration (length * 2 * max count < 2^32 - 1):
+   BrotliCreateHuffmanTree RETURNS -- no attempt panics or runs out of fuel, the loop exits after
+   at most ceil(log2(max count)) doublings of count_limit -- and the depth vector is complete
+   (Kraft sum exactly 1), within the limit, and non-zero exactly on the used symbols.
+   Proof (proofs/Tree_total.v, Tree_merge_total.v, Tree_depth_total.v, Tree_sweep_core.v,
+   Tree_sweep.v, Tree_termination.v): every attempt is total; once count_limit >= max count all
+   leaves weigh the same, the sort leaves the already sorted leaves alone, the two-queue merge
+   (refined to a pure function on (weight, tree) lists) builds a tree whose shape depends only on
+   the number of leaves (scaling and relabelling lemma), and the height of that canonical tree is
+   at most ceil(log2 n) for every n = 2 .. 16383 (computed sweep), so the depth test passes. *)
+Theorem C17_tree : forall counts limit pool depth0,
+  (0 <= limit <= 15)%Z ->
+  (2 <= nonzero_count counts)%nat ->
+  2 * N.of_nat (length counts) + 1 <= 32768 ->
+  N.of_nat (length counts) <= 2 ^ Z.to_N limit ->
+  2 * N.of_nat (length counts) + 1 <= N.of_nat (length pool) ->
+  N.of_nat (length counts) * (2 * fold_right N.max 1 counts) < 2 ^ 32 - 1 ->
+  length depth0 = length counts ->
+  (forall i, nth i counts 0 = 0 -> nth i depth0 0 = 0) ->
+  exists d pool' r,
+    create_huffman_tree counts (N.of_nat (length counts)) limit pool depth0 = Done (d, pool', r) /\
+    r <= N.log2_up (fold_right N.max 1 counts) /\
+    length d = length counts /\
+    (forall i, (i < length counts)%nat -> (nth i d 0 <> 0 <-> nth i counts 0 <> 0)) /\
+    (forall i, nth i d 0 <= Z.to_N limit) /\
+    kraft d = kraft_one.
+Proof. exact tree_total. Qed.
+Print Assumptions C17_tree.
+
+(* C17_tree_stmt as written above lacks the hypothesis `Hi16` (node indices fit i16), which
+   C17_tree_partial has: at limit 15 it admits alphabets of 16385 .. 32768 symbols, where child
+   indices stored `as i16` go negative -- the real code and the extracted model both panic on
+   16385 equal counts (too large to replay by vm_compute on the list model, hence no `_refuted`
+   theorem).  With that one hypothesis added the statement holds verbatim: *)
+Theorem C17_tree_stmt_i16 : forall counts limit pool depth0,
+  forall Hi16 : 2 * N.of_nat (length counts) + 1 <= 32768,
+  In limit [15; 14; 5]%Z ->
+  (2 <= nonzero_count counts)%nat ->
+  N.of_nat (length counts) <= 2 ^ Z.to_N limit ->
+  2 * N.of_nat (length counts) + 1 <= N.of_nat (length pool) ->
+  N.of_nat (length counts) * (2 * fold_right N.max 1 counts) < 2 ^ 32 - 1 ->
+  length depth0 = length counts ->
+  (forall i, nth i counts 0 = 0 -> nth i depth0 0 = 0) ->
+  exists d pool' r,
+    create_huffman_tree counts (N.of_nat (length counts)) limit pool depth0 = Done (d, pool', r) /\
+    length d = length counts /\
+    (forall i, (i < length counts)%nat -> (nth i d 0 <> 0 <-> nth i counts 0 <> 0)) /\
+    (forall i, nth i d 0 <= Z.to_N limit) /\
+    kraft d = kraft_one.
+Proof. exact tree_total_stmt. Qed.
+Print Assumptions C17_tree_stmt_i16.
+
+(* Non-vacuity of C17_tree: the skewed 18-symbol Fibonacci histogram at limit 5 satisfies every
+   hypothesis, and the loop really retries (8 doublings, within ceil(log2 2584) = 12). *)
+Example C17_tree_total_point :
+  let counts := [1; 1; 2; 3; 5; 8; 13; 21; 34; 55; 89; 144; 233; 377; 610; 987; 1597; 2584] in
+  let pool := repeat node0 37 in
+  let depth0 := repeat 0 18 in
+  (0 <= 5 <= 15)%Z /\ (2 <= nonzero_count counts)%nat /\
+  2 * N.of_nat (length counts) + 1 <= 32768 /\ N.of_nat (length counts) <= 2 ^ Z.to_N 5 /\
+  2 * N.of_nat (length counts) + 1 <= N.of_nat (length pool) /\
+  N.of_nat (length counts) * (2 * fold_right N.max 1 counts) < 2 ^ 32 - 1 /\
+  length depth0 = length counts /\ (forall i, nth i counts 0 = 0 -> nth i depth0 0 = 0) /\
+  (exists d pool', create_huffman_tree counts (N.of_nat (length counts)) 5 pool depth0 = Done (d, pool', 8)) /\
+  8 <= N.log2_up (fold_right N.max 1 counts).
+Proof.
+  cbv zeta. split; [split; discriminate|]. split; [vm_compute; repeat constructor|].
+  split; [vm_compute; discriminate|]. split; [vm_compute; discriminate|]. split; [vm_compute; discriminate|].
+  split; [vm_compute; reflexivity|]. split; [reflexivity|]. split; [intros i _; apply nth_repeat|].
+  split; [vm_compute; eexists; eexists; reflexivity|vm_compute; discriminate].
+Qed.
